@@ -19,7 +19,8 @@ CHECKS = {
         "judged by a predicate written from the property (nearest counterpart, "
         "no pose twice, increasing order, copies, inputs untouched, error iff "
         "nothing matches). Complete within that scope; contested counterparts, "
-        "ties and exact-threshold hits all occur thousands of times.",
+        "ties and exact-threshold hits all occur thousands of times. " 
+        "A third jitter of 2^-8 with thresholds 0, 2^-9, 2^-8, 0.25 decides tiny thresholds and max_diff = 0; exceptions other than SyncException are violations.",
         "Trusted: numpy float64 arithmetic on multiples of 0.125 (exact), the "
         "predicate oracle in mc/checks/c05.py. Not covered: > 8 stamps, "
         "off-grid stamps other than the literal F3 witness.",
@@ -51,7 +52,8 @@ CHECKS = {
         "objects; after every transition every view, check() and the derived "
         "quantities are compared with the model; states are de-duplicated on "
         "content + hidden cache state, so every reachable combination of "
-        "'which views were read before which write' is visited.",
+        "'which views were read before which write' is visited. " 
+        "Initial objects also hold their matrices as one (n,4,4) array; the alphabet contains a left multiplication with the propagation switch on and calls that evo rejects (which must change nothing).",
         "Trusted: reference model in mc/checks/c08.py; state canonicalisation "
         "(content rounded to 1e-9 + set of existing caches). Not covered: "
         "histories longer than the depth bound, trajectories other than the "
@@ -69,7 +71,8 @@ CHECKS = {
         "mismatches, inputs bitwise unchanged, no aliasing. evo_res "
         "--save_table for every ordered selection of 1..3 result files x "
         "use_filenames x merge: CSV rows/labels/values, duplicate labels "
-        "refused.",
+        "refused. " 
+        "evo_res over six result files: three plain ones, a name with glob metacharacters next to the sibling it would match, a NaN statistic, a different statistic set.",
         "Trusted: the predicate in mc/checks/c13.py, csv parsing. Not covered: "
         "lists longer than the bound, result files other than the three APE "
         "fixtures.",
@@ -87,7 +90,8 @@ CHECKS = {
         "motion filter, 2 alignments, reads) operations on a heap of up to 3 "
         "objects; after every step every other object is bitwise unchanged "
         "and internally consistent; the state includes the buffer-sharing "
-        "graph.",
+        "graph. " 
+        "Heap objects also hold their matrices as one (n,4,4) array (views sharing one buffer; transitions are replayed, not deep-copied); writers are also given a result with NaN / inf statistics and info values.",
         "Trusted: snapshots through deepcopy; np.shares_memory for the "
         "aliasing graph. Not covered: heaps > 3 objects, depth beyond bound.",
         "DESIGN.md 4/C16"),
@@ -105,7 +109,8 @@ CHECKS = {
         "set+start, reset+start; thorough: +kill, 3 starts) is explored with "
         "state-hash pruning. Invariant in every state: settings.json absent "
         "or complete JSON; no started process fails; finished processes see "
-        "all default keys.",
+        "all default keys. " 
+        "A fresh process is also started after every operation that completed (not only after a kill).",
         "Trusted: the VFS model (atomic primitives, inode semantics, process "
         "kill loses user-space buffers); CPython refcount-driven flush of "
         "un-closed files. Not covered: power loss / block-level reordering, "
@@ -124,7 +129,8 @@ CHECKS = {
         "of later poses, RMSE never worse / optimal, second alignment is the "
         "identity; recorded alignment matrix of ape()/rpe()/evo_ape/evo_rpe "
         "maps the unaligned estimate onto the stored one for 6 option "
-        "combinations.",
+        "combinations. " 
+        "Also with both trajectories displaced by (4620.37, 54280.91, 310.55) (coordinates large against the extent).",
         "Trusted: Horn oracle; tolerance 1e-9 x coordinate scale. Not covered: "
         "paths outside the step alphabet, > 6 poses.",
         "DESIGN.md 4/C04"),
@@ -139,7 +145,8 @@ CHECKS = {
         "angles, SE(3)/Sim(3) inverses and scale recovery, membership of "
         "genuine elements, rejection of 12 near-miss classes and 4 bottom "
         "rows; all pairs: metric value, symmetry, zero only for equal, "
-        "bi-invariance; all triples: triangle inequality.",
+        "bi-invariance; all triples: triangle inequality. " 
+        "Near misses include shears of either sign (5e-4..0.1) in all six off-diagonal positions on either side.",
         "Trusted: numpy-only rotation oracle (mc/refmodel/geom.py). Not "
         "covered: rotations outside the alphabet; near-miss matrices between "
         "1e-9 and 1e-5 from the group (acceptance radius is not specified).",
@@ -156,7 +163,8 @@ CHECKS = {
         "t_max_diff) plus a KITTI/EuRoC lattice: every exported file is parsed "
         "by an independent parser and compared with the reference pipeline in "
         "the documented order; predicted refusals must be refusals; identity "
-        "run must reproduce the input bit for bit.",
+        "run must reproduce the input bit for bit. " 
+        "Also with file names that contain the reference's file name as suffix / prefix, --propagate_transform with --transform_left, and a motion-filter threshold spanning several poses of the zig-zag fixture.",
         "Trusted: reference pipeline (mc/refmodel/pipeline.py), Horn oracle, "
         "evo's own project() for the orientation of non-planar projections. "
         "Not covered: bag input/output, other fixtures.",
@@ -175,7 +183,8 @@ CHECKS = {
         "parsers x several numeric spellings, and ordered pairs of options: "
         "direct parsing vs -c generated.json; namespace differences are "
         "decided by executing both and comparing outputs. Part C: -c "
-        "priority, per-run settings override, locked container.",
+        "priority, per-run settings override, locked container. " 
+        "Reset of every single key, adjacent pair and prefix-related pair from a file in which every key holds a user value; a set whose value tokens are all numeric must not raise.",
         "Trusted: introspection of argparse actions; output comparison of "
         "result zips / exported files. Not covered: short options, triples of "
         "options.",
@@ -224,7 +233,8 @@ CHECKS = {
         "x all_pairs x pairs_from_reference x timed: one companion entry per "
         "value referring to the right pose, stored trajectories = processed "
         "ones ([0]+end poses for RPE, zero-distance pairs skipped "
-        "consistently), values = definition x factor.",
+        "consistently), values = definition x factor. " 
+        "Every assembly case also with an exact copy of the reference as estimate (all errors exactly zero).",
         "Trusted: reference definitions in mc/checks/c12.py; pair selection "
         "taken from evo's id_pairs_from_delta (decided by C10).",
         "DESIGN.md 4/C12"),
@@ -239,7 +249,8 @@ CHECKS = {
         "about the normal, views agree, stamps/count/order unchanged, planar "
         "poses unchanged, second projection refused without effect. The xz "
         "heading defect is a listed known finding (K1), matched only on its "
-        "exact mapping.",
+        "exact mapping. " 
+        "Also after project() calls rejected for their argument, with matrices held as one (n,4,4) array, and through ape()/rpe() with project_to_plane on equal-but-distinct trajectories.",
         "Trusted: numpy rotation oracle. Not covered: rotations outside the "
         "alphabets.",
         "DESIGN.md 4/C14"),
@@ -258,7 +269,8 @@ CHECKS = {
         "t_offset, crop, projection, unit change, TUM/KITTI/EuRoC) - full "
         "product in the thorough tier, pairwise + 9216-point sub-product in "
         "the quick tier - error_array and timestamps from the saved zip vs "
-        "the reference pipeline incl. predicted refusals.",
+        "the reference pipeline incl. predicted refusals. " 
+        "Plus geometry variants of the estimate file (mirrored copy, both trajectories displaced by 5e4 m, the reference file given twice) x relation x alignment x n_to_align; an exception escaping from evo is a violation.",
         "Trusted: reference pipeline and definitions (mc/refmodel, "
         "mc/checks/ape_rpe_common.py), Horn oracle, evo's project() for the "
         "orientation of non-planar projections, one 8-pose fixture.",
@@ -274,7 +286,8 @@ CHECKS = {
         "skipped consistently, unequal lengths refused; drift independence "
         "under different rigid motions; zero for identical relative motions. "
         "evo_rpe lattice (14 dimensions; pairwise + full sub-products) vs the "
-        "reference pipeline.",
+        "reference pipeline. " 
+        "Plus geometry variants of the estimate file (mirrored copy, displaced by 5e4 m, the reference given twice) x relation x delta x pairing x alignment.",
         "Trusted: as C01; the pair selection itself is evo's "
         "id_pairs_from_delta (decided by C10) applied to the trajectory the "
         "property names.",
@@ -290,7 +303,8 @@ CHECKS = {
         "sizes {1,2,3,|F| (,1e5)}, of result archives (with/without embedded "
         "trajectories, unicode info, empty / 2-D arrays), of DataFrame "
         "conversions (explicit types), and a ROS1 bag (positions/quaternions "
-        "exact, frame id, stamps within 1 ns).",
+        "exact, frame id, stamps within 1 ns). " 
+        "Result info strings run through an alphabet (undecodable file-name bytes as lone surrogates, control characters, astral plane, empty, long).",
         "Trusted: numpy bit patterns. Not covered: ROS2 bag export (the "
         "installed rosbags writer needs an argument evo does not pass), "
         "denormals / values beyond 1e+-300.",
@@ -324,7 +338,8 @@ CHECKS = {
         "warnings are off, a prompt is issued iff something exists, nothing "
         "else is written in place, outputs are written otherwise; a "
         "completeness guard introspects the parsers for uncovered output "
-        "options.",
+        "options. " 
+        "Bystander files with neighbouring names exist in every initial state and may never change; extension-less plot target also with savefig.format = pdf.",
         "Trusted: input() substitution, directory snapshots. Excluded: "
         "--logfile (append), bag exports (time-stamped names).",
         "DESIGN.md 4/C17"),
